@@ -315,7 +315,8 @@ int record_main(int argc, char** argv) {
   vf::crash_ctx().out = tr.f;
   vf::install_crash_handlers();
   protect_process();
-  for (long k = 0; k < n; ++k) record_event(g, tr, kind, limit);
+  // an engine that keeps running into the time limit of the child processes: stop early, what was recorded is judged
+  for (long k = 0; k < n && child_timeouts() < 12; ++k) record_event(g, tr, kind, limit);
   std::printf("{\"events\":%ld}\n", tr.n);
   return 0;
 }
